@@ -258,7 +258,7 @@ class kMinPathError(pathmodel.AbstractPathModelDAG):
             flow_attr=self.flow_attr, edges_to_ignore=self.edges_to_ignore
         )
         # For integer weights the bound is rounded up: int() would truncate 2.9999999999999996 to 2 (and 0.9999999999999999 to 0)
-        self.w_max = self.k * (math.ceil(max_flow_value) if self.weight_type == int else float(max_flow_value))
+        self.w_max = int(self.k) * (math.ceil(max_flow_value) if self.weight_type == int else float(max_flow_value))
         # (all the given weights can go through the same edge: the error of an edge, hence the slack a path needs, reaches their sum)
         self.w_max = max(self.w_max, sum(float(weight) for weight in (self.solution_weights_superset or [])))
 
